@@ -184,6 +184,13 @@ fn harness_blocking<R>(f: impl FnOnce() -> R) -> R {
     r
 }
 
+/// A pattern whose matches cannot depend on what follows them: no `$`, no look-ahead, no
+/// word-boundary assertion (checked syntactically and conservatively: an escaped `\$` also
+/// counts). Look-behind and `^` only look backwards.
+pub fn end_insensitive(pattern: &str) -> bool {
+    !(pattern.contains('$') || pattern.contains("(?=") || pattern.contains("(?!") || pattern.contains("\\b") || pattern.contains("\\B"))
+}
+
 /// Run `f` in model mode: hook counts only (own fuel), no scheduling, no injected
 /// cancel, no site statistics. Err(None) = ran out of fuel, Err(Some(msg)) = panic.
 pub fn model_mode<R>(fuel: u64, f: impl FnOnce() -> R) -> (Result<R, Option<String>>, u64) {
@@ -231,6 +238,8 @@ pub struct ModelAns {
 
 #[derive(Default, Clone, Debug)]
 pub struct ModelStats {
+    pub extension_checks: u64,
+    pub extension_informative: u64,
     pub shift_checks: u64,
     pub shift_informative: u64,
     pub pinned_queries: u64,
@@ -396,6 +405,49 @@ impl<'w> Model<'w> {
                                         format!("{} (first match from {})", got, c2),
                                     ));
                                 }
+                            }
+                        }
+                    }
+                }
+            }
+        }
+        // Haystack-extension consistency (every world, end-insensitive patterns only): for a
+        // pattern without `$`, look-ahead or word-boundary assertions a match never depends on
+        // what follows it, so the first match from c in T + pad, if it lies inside T, is the
+        // first match from c in T, and "none in T + pad" implies "none in T". The mirror image
+        // of the cursor-shift check: it moves the END of the haystack relative to the match.
+        if cursor <= text.len() && end_insensitive(&spec.pattern) {
+            if let Some(at_c) = &ans.outcome {
+                if !at_c.starts_with("NoRegex") && !at_c.starts_with("Panicked") {
+                    let pad = if spec.input == InputKind::Ascii { "~~~~" } else { "\u{e000}~\u{e000}~" };
+                    let ext: String = format!("{}{}", text, pad);
+                    let ext_static: &'static str = unsafe { &*(ext.as_str() as *const str) };
+                    let (r2, st2) = model_mode(fuel, || {
+                        let re = compile(spec).ok()?;
+                        let mut it = open_iter(&re, spec, ext_static, cursor);
+                        let m = it.next();
+                        drop(it);
+                        Some(m)
+                    });
+                    {
+                        let mut stg = self.stats.lock().unwrap();
+                        stg.extension_checks += 1;
+                        stg.steps += st2;
+                    }
+                    if let Ok(Some(m2)) = r2 {
+                        let implied: Option<String> = match &m2 {
+                            None => Some("None".to_string()),
+                            Some(m) if m.end() <= text.len() && m.captures.iter().flatten().all(|r| r.end <= text.len()) => Some(fmt_match(m)),
+                            Some(_) => None, // the match reaches into the padding: no information
+                        };
+                        if let Some(imp) = implied {
+                            self.stats.lock().unwrap().extension_informative += 1;
+                            if imp != *at_c {
+                                self.shift_viols.lock().unwrap().push((
+                                    format!("/{}/{} ({:?},{:?}) on {:?} from {}: with {} characters appended the first match is {}, which lies inside the original text (or is none)", spec.pattern, spec.flags, spec.exec, spec.input, text, cursor, pad.chars().count(), imp),
+                                    imp,
+                                    format!("{} (first match from {} in the original text) [haystack-extension]", at_c, cursor),
+                                ));
                             }
                         }
                     }
@@ -2112,7 +2164,7 @@ pub fn execute(world: &World, explicit: Option<&[Segment]>) -> Exec {
     for (what, implied, observed) in model.shift_viols.lock().unwrap().iter() {
         viols.push(Violation {
             property: "C09",
-            clause: "first-match-inconsistent-under-cursor-shift".into(),
+            clause: if observed.ends_with("[haystack-extension]") { "first-match-inconsistent-under-haystack-extension".into() } else { "first-match-inconsistent-under-cursor-shift".into() },
             pass: 0,
             thread: 0,
             op: 0,
